@@ -38,6 +38,9 @@ Entries == {
     \* an option value that holds the '=' itself: key "note", value "a=b"
     E(hello, <<53>>, <<unstable>>, << <<urgency, low>>, <<<<110, 111, 116, 101>>, <<97, 61, 98>>>> >>, Body1, m1, D(1, 2, 1, 2006, 15, 4, 5, TRUE, 2, 0)) }
 Models == UNION {[1..n -> Entries] : n \in 1..MaxEntries}
+\* a header whose epoch is written with a leading zero: "010:2.10-1" is epoch ten
+ZeroEpoch == E(hello, <<49, 48, COLON, 50, 46, 49, 48, HYPHEN, 49>>, <<unstable>>, << <<urgency, low>> >>, Body3, m1, D(1, 2, 1, 2006, 15, 4, 5, TRUE, 7, 0))
+             @@ [vtext |-> <<48, 49, 48, COLON, 50, 46, 49, 48, HYPHEN, 49>>]
 Vec(es, lead, gap, final) ==
     LET r == RenderChangelog(es, lead, gap, final) IN
     [k |-> "cl", entries |-> es, lead |-> lead, gap |-> gap, final |-> final, bytes |-> r.bytes, ends |-> r.ends]
@@ -45,5 +48,5 @@ Vec(es, lead, gap, final) ==
 ZoneEntries == {E(hello, <<49>>, <<unstable>>, << <<urgency, low>> >>, Body3, m1, D(1, 2, 1, 2006, 15, 4, 5, zn, zh, zm)) :
                    zn \in BOOLEAN, zh \in {0, 3, 9, 12}, zm \in {0, 30, 45}}
 ASSUME Emit(SetToSeq({Vec(es, lead, gap, final) : es \in Models, lead \in {0, 1}, gap \in {1, 2}, final \in BOOLEAN})
-            \o SetToSeq({Vec(<<e>>, 0, 1, TRUE) : e \in ZoneEntries}))
+            \o SetToSeq({Vec(<<e>>, 0, 1, TRUE) : e \in ZoneEntries} \cup {Vec(<<ZeroEpoch>>, 0, 1, TRUE)}))
 =============================================================================
